@@ -47,7 +47,7 @@ DistinctEntities == \A r1, r2 \in Raws : (r1 # r2 /\ r1[2] # 0 /\ r2[2] # 0) => 
 ---------------------------------------------------------------------------
 (* Boundary classes at the real widths *)
 RealDeclared == {0, 3, 4, 255}          \* the harness world
-RPos == {0, 1, 2, 16777214, 16777215}
+RPos == {0, 1, 2, 255, 256, 65535, 65536, 16777214, 16777215}
 RId == {0, 1, 2, 3, 4, 5, 254, 255}
 RGen == {<<0, 0>>, <<0, 1>>, <<0, 2>>, <<1, 0>>, <<32768, 0>>, <<65535, 65534>>, <<65535, 65535>>}
 
